@@ -493,12 +493,36 @@ def execute(scn, prefix=(), base_order='fifo', keep_world=False):
     classes   = {}
     evts      = {}
 
+    lin = scn.get('lineage')
+
+    if lin:
+        from . import simthread
+        import openfilter.observability.lineage as lineage_mod
+
+        lineage_mod.threading = simthread.module()
+
+        runids = {}     # uuid4 run ids -> order of first appearance (the one nondeterministic value in the history)
+
+        class Client:
+            def __init__(self, name):
+                self.name = name
+
+            def emit(self, event):
+                w.park({'kind': 'yield'})
+                w.log.append({'ev': 'lineage', 'f': self.name, 't': w.now, 'type': getattr(event.eventType, 'name', str(event.eventType)),
+                              'run': runids.setdefault(event.run.runId, len(runids)), 'by': w.current.name})
+
     def start_filter(f, incarnation=0):
         name = f['name']
         cls  = classes.get(name)
 
         if cls is None:
             cls = classes[name] = type(f'Sim_{name}', (SimFilter,), {'spec': f})
+
+        if lin and f.get('lineage', True):
+            import openfilter.observability.lineage as lineage_mod
+
+            cls.emitter = lineage_mod.OpenFilterLineage(client=Client(name), interval=lin.get('interval', 1), facets={}, filter_name=name)
 
         cfg = build_config(scn, f)
         evt = threading.Event()
